@@ -579,7 +579,117 @@ func checkResetAndCache(r *core.Result, prog *core.Program, pk *packages.Package
 			}
 			return true
 		})
+		typeOnlyVerdict(r, prog, info, f)
 		r.Ob("D4b", "deduceMsgType :: values that are not pointers are not v1/gogo messages", prog.Pos(f.Pos()), nonPtr, "expected `if … typ.Kind() != reflect.Ptr { return MessageTypeUnknown }` before the v1/gogo assertion")
 		r.Ob("D4b", "deduceMsgType :: Gogo messages are those registered with the Gogo runtime", prog.Pos(f.Pos()), gogoReg, "expected `if gogo.MessageName(m) != \"\" { return MessageTypeGogo }`: the v1 and Gogo message interfaces are identical, the registry is the only discriminator")
 	}
+}
+
+// typeOnlyVerdict (D12): MsgType stores the verdict of deduceMsgType in a cache keyed by reflect.Type, so the
+// verdict has to be a function of the type alone. Every use of the interface-typed parameter is the operand of a
+// type assertion / type switch or the argument of reflect.TypeOf, and a value bound by such an assertion is used
+// only as the argument of a registry lookup by type (MessageName / MessageType of a runtime, reflect.TypeOf).
+// Anything else - reflect.ValueOf, a nil comparison, a method call, a field read - makes the cached verdict
+// depend on the first value of the type that happens to be classified.
+func typeOnlyVerdict(r *core.Result, prog *core.Program, info *types.Info, f *core.FuncInfo) {
+	tracked := map[types.Object]bool{}
+	for _, fl := range f.Decl.Type.Params.List {
+		for _, n := range fl.Names {
+			if t := info.TypeOf(fl.Type); t != nil {
+				if _, isI := t.Underlying().(*types.Interface); isI && namedPkgPath(t) != "reflect" {
+					tracked[info.Defs[n]] = true
+				}
+			}
+		}
+	}
+	// values bound by assertions on a tracked value are tracked too
+	for changed := true; changed; {
+		changed = false
+		ast.Inspect(f.Decl.Body, func(n ast.Node) bool {
+			as, ok := n.(*ast.AssignStmt)
+			if !ok || len(as.Rhs) != 1 {
+				return true
+			}
+			src := ast.Unparen(as.Rhs[0])
+			if ta, ok := src.(*ast.TypeAssertExpr); ok {
+				src = ast.Unparen(ta.X)
+			}
+			id, ok := src.(*ast.Ident)
+			if !ok || !tracked[info.Uses[id]] {
+				return true
+			}
+			if l, ok := as.Lhs[0].(*ast.Ident); ok && l.Name != "_" {
+				obj := info.Defs[l]
+				if obj == nil {
+					obj = info.Uses[l]
+				}
+				if obj != nil && !tracked[obj] {
+					tracked[obj] = true
+					changed = true
+				}
+			}
+			return true
+		})
+	}
+	typeOnly := func(c *ast.CallExpr) bool {
+		fn := staticCallee(info, c)
+		if fn == nil || fn.Pkg() == nil {
+			return false
+		}
+		if fn.Pkg().Path() == "reflect" && fn.Name() == "TypeOf" {
+			return true
+		}
+		if _, ok := familyOfImport[fn.Pkg().Path()]; ok && (fn.Name() == "MessageName" || fn.Name() == "MessageType" || fn.Name() == "MessageV1" || fn.Name() == "MessageV2") {
+			return true
+		}
+		return false
+	}
+	n := 0
+	var stack []ast.Node
+	ast.Inspect(f.Decl.Body, func(nn ast.Node) bool {
+		if nn == nil {
+			stack = stack[:len(stack)-1]
+			return true
+		}
+		stack = append(stack, nn)
+		id, ok := nn.(*ast.Ident)
+		if !ok || !tracked[info.Uses[id]] {
+			return true
+		}
+		n++
+		parent := stack[len(stack)-2]
+		for {
+			if p, ok := parent.(*ast.ParenExpr); ok && len(stack) >= 3 {
+				_ = p
+				parent = stack[len(stack)-3]
+				break
+			}
+			break
+		}
+		okUse, why := false, ""
+		switch p := parent.(type) {
+		case *ast.TypeAssertExpr:
+			okUse = p.X == nn || ast.Unparen(p.X) == nn
+		case *ast.CallExpr:
+			isArg := false
+			for _, a := range p.Args {
+				if ast.Unparen(a) == nn {
+					isArg = true
+				}
+			}
+			okUse = isArg && typeOnly(p)
+			why = "passed to " + types.ExprString(p.Fun) + ", which is not a lookup by type"
+		case *ast.AssignStmt:
+			okUse = true // re-binding, followed above
+		default:
+			why = fmt.Sprintf("used in %T", parent)
+		}
+		if se, ok := parent.(*ast.SelectorExpr); ok && se.X == nn {
+			why = "its member " + se.Sel.Name + " is read or called"
+		}
+		r.Ob("D12", fmt.Sprintf("%s :: use #%d of the classified value (%s) depends on the type only", f.Name, n, id.Name), prog.Pos(id.Pos()), okUse,
+			"the verdict is cached per reflect.Type, but this use looks at the value ("+why+"): the first value of a type that reaches MsgType decides the classification of every later one")
+		return true
+	})
+	r.Floor("uses of the classified value in "+f.Name, n, 3)
 }
